@@ -168,7 +168,32 @@ def m_str_index(ex, args, callee):
     return SB(s.bs[f[0]:f[1]])
 
 
+def m_parse_uint(ex, args, callee):
+    """str::parse::<uN>() on a bounded-bytes string: optional '+', then ASCII digits, value must fit"""
+    import re
+    bits = int(re.search(r'parse::<u(\d+|size)>', callee).group(1).replace('size', '64'))
+    s = dv(args[0])
+    if isinstance(s, str):
+        try:
+            v = int(s) if re.match(r'^\+?\d+$', s) else None
+        except ValueError:
+            v = None
+        return ex.ok(v) if v is not None and v < (1 << bits) else ex.err(Opaque('ParseIntError'))
+    bs = list(s.bs)
+    if bs and ex.truth(b8(bs[0]) == c8('+')): bs = bs[1:]
+    if not bs: return ex.err(Opaque('ParseIntError'))
+    if len(bs) > 6: raise Unsupported('parse::<uN> of a long symbolic string')
+    val = z3.BitVecVal(0, 64)
+    for b in bs:
+        if not ex.truth(z3.And(z3.UGE(b8(b), c8('0')), z3.ULE(b8(b), c8('9')))): return ex.err(Opaque('ParseIntError'))
+        val = val * 10 + z3.ZeroExt(56, b8(b) - c8('0'))
+    val = z3.simplify(val)
+    if bits < 64 and not ex.truth(z3.ULT(val, 1 << bits)): return ex.err(Opaque('ParseIntError'))
+    return ex.ok(z3.simplify(z3.Extract(bits - 1, 0, val)) if bits < 64 else val)
+
+
 MODELS = [
+    (r'<impl str>::parse::<u(8|16|32|64|size)>$', m_parse_uint),
     (r'<impl str>::split::<', m_split),
     (r'^percent_decode_str$|percent_encoding::percent_decode_str$', m_percent_decode_str),
     (r'PercentDecode::<.*>::decode_utf8$', m_decode_utf8),
